@@ -258,6 +258,25 @@ pub fn for_each_workspace(tier: Tier, ctx: &mut Ctx, mut f: impl FnMut(&mut Ctx,
             return;
         }
     }
+    // 2a'''. twins: two included files with the same text, so that the same names are used at the same offsets of different files
+    for bi in 0..m {
+        if !ctx.mine() {
+            continue;
+        }
+        let case = WsCase {
+            files: vec![
+                ("/ws/a.td".into(), "class A<int a> { int f = a; }\nclass B<int a> { int f = a; }\ninclude \"b.td\"\ninclude \"c.td\"\ndef tail : A<1> { let f = 2; }".to_string()),
+                ("/ws/b.td".into(), format!("// twin\n{}\ndef tb : B<2> {{ let f = 3; }}", menu[bi])),
+                ("/ws/c.td".into(), format!("// twin\n{}\ndef tc : B<2> {{ let f = 3; }}", menu[bi])),
+            ],
+            root: "/ws/a.td".into(),
+            stratum: "twins",
+            focus: None,
+        };
+        if !f(ctx, &case) {
+            return;
+        }
+    }
     // 2b. diamonds: the root includes b and c, c includes b again; statements follow the includes
     let c_stmts = ["class CC : A;", "def cc : B { let f = 3; }", "defvar A = B;"];
     for bi in 0..m {
